@@ -59,6 +59,25 @@ def main(prop):
         L1 = "".join(f"    {a}:\t{b:<21}\t{t}\n" for a, b, t in [("401126", "e8 05 00 00 00", "call   401130 <f>"), ("40112b", "85 c0", "test   %eax,%eax"), ("40112d", "74 0c", "je     40113b <g>"), ("40112f", "c3", "ret")])
         plain = {"pattern": [{"call": ["401130"]}, {"test": ["%eax", "%eax"]}, {"je": ["40113b"]}]}
         fresh = _j.run_pipeline(plain, L1, only_addr=True)
+        # the same listing stored with CRLF line ends, under every flag setting (a stray '\r' would only show under full match)
+        L2 = "".join(f"    {a}:\t{b:<21}\t{t}\n" for a, b, t in [("1000", "55", "push   %rbp"), ("1001", "48 89 e5", "mov    %rsp,%rbp"), ("1004", "31 c0", "xor    %eax,%eax"), ("1006", "c9", "leave"), ("1007", "c3", "ret")])
+        for mf, of in T.FLAGS:
+            for nm, text in (("LF", L2), ("CRLF", L2.replace("\n", "\r\n"))):
+                for pat, want in (([{"push": ["%rbp"]}, {"mov": ["%rsp", "%rbp"]}], ["1000"]), ([{"xor": ["%eax", "%eax"]}, "leave", "ret"], ["1004"])):
+                    got = _j.file_route_stream(text.encode(), T.doc_of(pat, mf, of)) and _j.run_pipeline(T.doc_of(pat, mf, of), text, only_addr=True) if nm == "LF" else None
+                    if nm == "CRLF":
+                        import os as _os, tempfile as _tf
+                        from jasm.global_definitions import InputFileType as _IFT, MatchConfig as _MC, MatchingReturnMode as _MRM, MatchingSearchMode as _MSM
+                        from jasm.match import MasterOfPuppets as _MoP
+                        import yaml as _yaml
+                        with _j.scratch() as _d:
+                            _rp, _ap = _os.path.join(_d, "r.yaml"), _os.path.join(_d, "in.s")
+                            open(_rp, "w").write(_yaml.safe_dump(T.doc_of(pat, mf, of), sort_keys=False))
+                            open(_ap, "wb").write(text.encode())
+                            got = _MoP(_MC(pattern_pathstr=_rp, input_file=_ap, input_file_type=_IFT.assembly, return_only_address=True, return_mode=_MRM.matched_addrs_list, matching_mode=_MSM.all_finds)).perform_matching()
+                    run.count("traces_validated_against_impl")
+                    if got != want:
+                        run.failure(f"item_sequence/LINE-ENDS/{nm}", f"rule {pat} flags m{int(mf)}o{int(of)} on the {nm} listing: {got}, expected {want}", {"kind": "sequence", "items": [], "seq": []})
         for nm, earlier in (("address range", {"config": {"valid_addr_range": {"min": "0x401000", "max": "0x401fff"}}, "pattern": ["ret"]}), ("full-match flags", {"config": {"mnemonics-full-match": True, "operands-full-match": True}, "pattern": ["ret"]})):
             _j.run_pipeline(earlier, L1)
             got = _j.run_pipeline(plain, L1, only_addr=True)
@@ -72,9 +91,12 @@ def main(prop):
         from checks import lxprops as _lx
 
         lines, recs = [], []
-        for i, (raw, m, ops) in enumerate(_lx.RARE_LINES):
+        for i, entry in enumerate(_lx.RARE_LINES):
+            raw, m, ops = entry[:3]
+            if len(entry) > 4:
+                continue   # prefix rewriting cases: the parser checks decide them
             a = format(0x401000 + 8 * i, "x")
-            lines.append(f"  {a}:\t{raw:<21}\t{(m + ' ').ljust(7) + ops if ops else m}")
+            lines.append(f"  {a}:\t{raw:<21}\t{(m + ' ').ljust(7) + ops + (entry[3] if len(entry) > 3 else '') if ops else m}")
             norm = [_lx.reference_normal_form(o) for o in _lx.split_top_level(ops)] if ops else []
             toks = [(_re.findall(r"%[a-z0-9]+|0x[0-9a-f]+|[0-9a-f]{4,}", o) or [None])[0] for o in norm]
             recs.append((a, m, toks))
@@ -136,6 +158,15 @@ def main(prop):
                 run.failure("genuine_address/INPUT-REWRITTEN", f"listing at one path rewritten between two matches: first {a1}, second {a2} (expected ['401000'] then ['402004'], addresses of the CURRENT file)", {"kind": "sequence", "items": [], "seq": []})
         except AssertionError:
             run.harness_error("rewritten-input probe: listings of different length")
+        lz = "".join(f"{a}:\t48 89 e5             \t{m}\n" for a, m in (("00001001", "mov    %rsp,%rbp"), ("00001004", "mov    %rax,%rbx"), ("00001007", "ret")))
+        for allm in (False, True):
+            got = _j.run_pipeline({"pattern": [{"mov": ["rsp", "rbp"]}, "mov"]}, lz, all_matches=allm, only_addr=True)
+            run.count("traces_validated_against_impl")
+            if got != ["00001001"]:
+                run.failure("genuine_address/ZERO-PADDED", f"listing with zero-padded addresses: reported {got}, the first covered instruction's address is written '00001001' in the input", {"kind": "sequence", "items": [], "seq": []})
+        from checks import c11 as _c11
+
+        _c11.scan_variants_probe(run, key="genuine_address/SCAN")
     if prop == "C07":
         # the reported text must be the engine's whole match (group 0) and the reported address its prefix: the
         # forwarding harness of C12 (engine stubbed) — a rule with capture groups must not change what is reported
